@@ -20,7 +20,7 @@ type c11 struct{}
 func (c11) ID() string    { return "C11" }
 func (c11) Level() string { return "exploration" }
 func (c11) Rule() string {
-	return "30 default-able facts (default network membership; implicit default network; <project>_<key> names of network/volume/secret/config; depends_on implied by links, network_mode/ipc/pid service: namespaces (alone, next to a plain value of another namespace, two at once), volumes_from; build context; dockerfile; port protocol; port mode; secret target; depends_on required; depends_on short list; env_file required; device count; pull_policy alias), each carried by its own service: every subset of <=3 facts left implicit and every subset of <=3 facts written explicitly (thorough: all 2^14 subsets of the first 14), delivered by main file (also declaring a `name:` other than the imposed project name, and with services and resources named x-... / with dots) / override / include / extended base (other file and same file), and (main file, extended base) under a later layer that restates the same entry in its other spelling and adds other entries to the same attributes; oracle: implicit model == all-explicit model delivered the same way. Plus, per fact, an explicit non-default value that must survive (written literally, and with each value of the service in turn given through a variable: must load wherever the schema admits a string), an implied depends_on that must not replace a declared one, and the `default` network present iff used, over every assignment of 3 services to 6 ways of using or not using it (implicit, explicit list, explicit mapping, with another network, network_mode, another network only). distinct = distinct subsets x origins"
+	return "30 default-able facts (default network membership; implicit default network; <project>_<key> names of network/volume/secret/config; depends_on implied by links, network_mode/ipc/pid service: namespaces (alone, next to a plain value of another namespace, two at once), volumes_from; build context; dockerfile; port protocol; port mode; secret target; depends_on required; depends_on short list; env_file required; device count; pull_policy alias), each carried by its own service: every subset of <=3 facts left implicit and every subset of <=3 facts written explicitly (thorough: all 2^14 subsets of the first 14), delivered by main file (also declaring a `name:` other than the imposed project name, and with services and resources named x-... / with dots) / override / include / extended base (other file and same file), and (main file, extended base) under a later layer that restates the same entry in its other spelling and adds other entries to the same attributes; oracle: implicit model == all-explicit model delivered the same way. Plus, per fact, an explicit non-default value that must survive (written literally, and with each value of the service in turn given through a variable: must load wherever the schema admits a string), an implied depends_on that must not replace a declared one, and the `default` network present iff used, over every assignment of 3 services to 6 ways of using or not using it (implicit, explicit list, explicit mapping, with another network, network_mode, another network only), and for one service whose networks arrive from two layers (left out / declared empty / [default] / [other], then left out / [other] / [default] / network_mode: host) through an override file, a second document and an extended base. distinct = distinct subsets x origins"
 }
 func (c11) Assumptions() []string {
 	return []string{"projects compared with go-cmp (EquateEmpty) over all model fields"}
@@ -459,6 +459,7 @@ func (c11) Run(c *core.Ctx) {
 			return core.Outcome{Class: fmt.Sprintf("defaultnet/%v/%v", used, has), Sample: sb.String()}
 		})
 	}
+	c11layeredDefaultNet(c)
 }
 
 var c11tokRe = regexp.MustCompile(`[A-Za-z0-9]+`)
@@ -516,6 +517,74 @@ func c11varify(fragment string) []c11variant {
 		out = append(out, c11variant{body, map[string]string{"ND": fmt.Sprint(lf.val)}, lf.path})
 	}
 	return out
+}
+
+// c11layeredDefaultNet: the default network is made explicit on the merged model, not on a layer: one service whose
+// `networks` arrive from two layers (left out, declared empty, [default], [other]; second layer also network_mode: host),
+// next to a service that only uses `other`.
+func c11layeredDefaultNet(c *core.Ctx) {
+	first := []struct {
+		body string
+		nets []string
+	}{{"", nil}, {"    networks: []\n", nil}, {"    networks: [default]\n", []string{"default"}}, {"    networks: [other]\n", []string{"other"}}}
+	second := []struct {
+		body string
+		nets []string
+		host bool
+	}{{"", nil, false}, {"    networks: [other]\n", []string{"other"}, false}, {"    networks: [default]\n", []string{"default"}, false}, {"    network_mode: host\n", nil, true}}
+	for fi, f := range first {
+		for si, sd := range second {
+			for _, delivery := range []string{"override", "document", "extends"} {
+				f, sd, delivery := f, sd, delivery
+				id := fmt.Sprintf("defaultnet-layered/%d/%d/%s", fi, si, delivery)
+				c.Do(id, func() core.Outcome {
+					rest := "  fixed:\n    image: i\n    networks: [other]\nnetworks:\n  other: {}\n"
+					files := map[string]string{}
+					main := []string{"compose.yaml"}
+					switch delivery {
+					case "override":
+						files["compose.yaml"] = "services:\n  s:\n    image: i\n" + f.body + rest
+						files["over.yaml"] = "services:\n  s:\n    image: i\n" + sd.body
+						main = append(main, "over.yaml")
+					case "document":
+						files["compose.yaml"] = "services:\n  s:\n    image: i\n" + f.body + rest + "---\nservices:\n  s:\n    image: i\n" + sd.body
+					case "extends":
+						files["compose.yaml"] = "services:\n  s:\n    extends: {file: ./base.yaml, service: b}\n" + sd.body + rest
+						files["base.yaml"] = "services:\n  b:\n    image: i\n" + f.body
+					}
+					s := &Scn{Files: files, Main: main}
+					root := s.Materialise()
+					p, err := s.LoadAt(root)
+					sample := map[string]any{"case": id, "files": files}
+					if sd.host && len(f.nets) > 0 {
+						// network_mode next to networks: an error is expected, nothing else asserted
+						return core.Outcome{Class: "exclusive", Trivial: true}
+					}
+					if err != nil {
+						return core.Outcome{Class: "err", Sample: sample, Viol: &core.Violation{Key: "defaultnet-layered:error", Msg: fmt.Sprintf("%s: %v", id, err)}}
+					}
+					want := map[string]bool{}
+					for _, n := range append(append([]string{}, f.nets...), sd.nets...) {
+						want[n] = true
+					}
+					if len(want) == 0 && !sd.host {
+						want["default"] = true
+					}
+					got := map[string]bool{}
+					for n := range p.Services["s"].Networks {
+						got[n] = true
+					}
+					if fmt.Sprint(sortedKeys(got)) != fmt.Sprint(sortedKeys(want)) {
+						return core.Outcome{Class: "att", Sample: sample, Viol: &core.Violation{Key: "defaultnet-layered:attachments", Msg: fmt.Sprintf("%s: service s is attached to %v, expected %v", id, sortedKeys(got), sortedKeys(want))}}
+					}
+					if _, has := p.Networks["default"]; has != want["default"] {
+						return core.Outcome{Class: "dn", Sample: sample, Viol: &core.Violation{Key: "defaultnet-layered:iff-used", Msg: fmt.Sprintf("%s: default network present=%v, used=%v", id, has, want["default"])}}
+					}
+					return core.Outcome{Class: id, Sample: sample}
+				})
+			}
+		}
+	}
 }
 
 func popcount(x uint32) int {
